@@ -1,13 +1,19 @@
 """C07 — Tile filters never drop a tile holding data: filtered sampling leaves no holes."""
 PROPERTY = "C07"
 LEVEL = "other"
-CONTRACT_MODULES = ["contracts.specfuns", "contracts.toastgeom", "contracts.filters"]
+CONTRACT_MODULES = ["contracts.specfuns", "contracts.lemmas_desc", "contracts.pyramid", "contracts.parallel", "contracts.walk",
+                    "contracts.reducer", "contracts.lemmas_embed", "contracts.generator", "contracts.image", "contracts.merge",
+                    "contracts.pyramidio", "contracts.study", "contracts.multitan", "contracts.toastsample", "contracts.toastgeom",
+                    "contracts.filters", "contracts.toastgen", "contracts.fitstiler"]
 FUNCTIONS = ["toasty.samplers._latlon_tile_filter", "toasty.samplers.ChunkedPlateCarreeSampler._chunk_bounds",
-             "toasty.samplers.ChunkedPlateCarreeSampler.filter"]
+             "toasty.samplers.ChunkedPlateCarreeSampler.filter",
+             "toasty.toast._postfix_corner", "toasty.toast.generate_tiles_filtered", "toasty.fits_tiler.FitsTiler._tile_toast"]
 LEMMAS = []
 SLOW = ()
 TRUSTED_BASE = ["pyvc VC generator; z3/cvc5", "compiled tile_intersects_latlon_bbox (assumed contract)", "np.asarray copy semantics",
                 "machine floats treated as reals"]
 ASSUMPTIONS = ["the footprint bounds of WcsSampler._image_bounds (coarse grid + refinement through the external WCS projection), the "
                "chunk sampler's masked indexing and all geometric containment are decided by the bounded tier only"]
-EXPLANATION = "box filter: fresh corner array and bounds in the external contract's order; chunk bounds: exact rectangle edges"
+EXPLANATION = ("box filter: fresh corner array and bounds in the external contract's order; chunk bounds: exact rectangle edges; "
+               "filtered enumeration: a tile is visited iff the filter accepted it and every ancestor below level 0 (recursive count), "
+               "nothing below a rejected tile; auto-tiling samples each image through its own footprint filter")
